@@ -497,6 +497,8 @@ func (e *Engine) builtinAppend(st *State, fr *Frame, args []Val, rt types.Type, 
 	et := resolve(elemOfSlice(rt), nil)
 	n := vs.L[2]
 	newLen := e.nameTerm(st, "applen", Add(s.L[2], n))
+	// make the position of the first appended element a ground idx-term (instantiation seed for element quantifiers)
+	st.Assume(Eq(e.idxWrap(s.L[2]), s.L[2]))
 	// in place
 	st2 := st.Clone()
 	fr2 := fr.cloneForPath()
